@@ -52,6 +52,7 @@ class Analyzer:
         self.base, self.chk, self.prog = base, chk, base.prog
         self.shapes = {}      # fname -> return shape learnt from its own analysis
         self.inline = set(INLINE)   # functions executed inside their callers (grows: context-sensitive re-analysis)
+        self.roots = set()
 
     # ---- symbolic inputs from types
     def sym_cells(self, k, t, name):
@@ -142,6 +143,10 @@ class Analyzer:
         short = f["short"]
 
         def summ(ex, path, args):
+            if args and all(isinstance(a, (int, bool, str)) for a in args):
+                # every argument is a concrete public value (loop counters, constants): the result is public too - run
+                # the body instead of replacing the result by a fresh secret
+                return X.TailCall(callee, list(args))
             n = path.dstate.setdefault("nsum", [0])
             n[0] += 1
             tag = "%s%d" % (short, n[0])
@@ -253,7 +258,18 @@ class Analyzer:
         if f["freevars"]:
             return None
         t0 = time.time()
-        paths = ex.call(fname, args, k.path)
+        # a stand-alone analysis with every parameter symbolic may not terminate (a loop bound that is a public counter in
+        # every caller is symbolic here): bounded in time; the function is then analysed in the context of its callers
+        ex.deadline = time.time() + (40 if fname not in self.roots else 1200)
+        try:
+            paths = ex.call(fname, args, k.path)
+        except X.ExecError as e:
+            if "time budget" not in str(e):
+                raise
+            self.shapes[fname] = None
+            return dict(fname=fname, paths=0, sites=[], seconds=time.time() - t0, engine_errors=["%s: %s" % (fname, e)], panics=[])
+        finally:
+            ex.deadline = None
         # return shape (for callers' summaries)
         shape = None
         for p in paths:
@@ -411,6 +427,22 @@ def run(chk):
     # analysis order: callees first
     an = Analyzer(base, chk)
     an.todo_set = set(ct_funcs)
+    an.roots = set(API)
+
+    def has_ptr_inside(t, top=True):
+        u = t.u
+        if u.k in ("ptr", "slice", "func", "iface"):
+            return not top
+        if u.k == "array":
+            return has_ptr_inside(prog.T(u.elem_id), False)
+        if u.k == "struct":
+            return any(has_ptr_inside(prog.T(f["type"]), False) for f in u.fields)
+        return False
+    # helpers that return aggregates holding pointers (e.g. an array of pointers to the limbs of an element) cannot be
+    # replaced by a "fresh secret outputs" summary: they are executed inline in their callers
+    for n in ct_funcs:
+        if any(has_ptr_inside(prog.T(rt)) for rt in prog.fn(n)["results"]) and n not in API:
+            an.inline.add(n)
     order, seen = [], set()
 
     def visit(n):
